@@ -44,6 +44,8 @@ PROGRAMS = [
     "{% for i in (1..a) %}{{ i }}{% endfor %}{% for i in l limit: b %}{{ i }}{% endfor %}{% cycle a, b %}{% echo o.k %}",
     "{% assign z = nil %}{{ z }}{% if z %}Z{% endif %}{% for i in l %}[{{ i }}{% if i %}T{% endif %}]{% endfor %}{{ a }}{{ b | default: 'd' }}{% assign y = a %}{{ y }}",
     "{% if a == nil %}N{% endif %}{% if a == b %}EQ{% endif %}{% if l contains a %}C{% endif %}{% if a < 1 or b %}LT{% endif %}",
+    "{% if o contains a %}H{% endif %}{% if l contains b %}L{% endif %}{{ l | uniq | size }}{{ l | compact | size }}{% case b %}{% when false %}F{% when nil %}N{% when a %}A{% endcase %}{% if a != false %}NF{% endif %}{% if b == false %}BF{% endif %}{% if false == a %}FA{% endif %}",
+    "{{ h | where: 'k', a | size }}{{ h | has: 'k', b }}{{ h | find_index: 'k', a }}{{ h | reject: 'k', b | size }}{{ h | map: 'k' | uniq | size }}{% if a in l %}IN{% endif %}{{ l | has: a }}",
 ]
 TEMPLATES = [[e.from_string(s) for s in PROGRAMS] for e in ENVS]
 for _row in TEMPLATES:
@@ -56,14 +58,15 @@ for _row in TEMPLATES:
 
 def _data(pa: bool, pb: bool, pl: bool, po: bool, pk: bool, va: int, vb: int) -> dict:
     d: dict = {}
-    a = None if va == 3 else va  # a name bound to nil exists: it is not "missing"
-    b = None if vb == 3 else vb
+    a = [0, 1, 2, None, False][va]  # a name bound to nil (or false) exists: it is not "missing"
+    b = [0, 1, 2, None, False][vb]
     if pa:
         d["a"] = a
     if pb:
         d["b"] = b
     if pl:
         d["l"] = [b, a]
+        d["h"] = [{"k": b}, {"k": a}, {}]
     if po:
         d["o"] = {"k": a} if pk else {}
     return d
@@ -79,13 +82,13 @@ def _run(policy: int, i: int, data: dict):
 
 
 @cond(
-    pre=["0 <= va <= 3", "0 <= vb <= 3"],
+    pre=["0 <= va <= 4", "0 <= vb <= 4"],
     timeout=240,
     shard={"i": list(range(len(PROGRAMS)))},
     covers="(a) a strict or falsy-strict render that succeeds prints exactly what the default policy prints; (b) a strict UndefinedError implies the default run created an undefined (something missing was used); (c) the default policy never raises UndefinedError; with everything present no policy raises UndefinedError",
-    bounds="13 programs (output, default filter, conditions, loops, filter arguments, lambdas, partial arguments, path segments, assign/capture, case/ternary, ranges/cycle/echo, comparisons); 5 presence bits (a, b, l, o, o.k); values 0..2 or nil (a variable bound to nil exists)",
+    bounds="15 programs (output, default filter, conditions, loops, filter arguments, lambdas, partial arguments, path segments, assign/capture, case/ternary, ranges/cycle/echo, comparisons); 5 presence bits (a, b, l, o, o.k); values 0..2, nil or false (a variable bound to nil or false exists)",
     stubs=(STUB_STRICT_INIT,),
-    grid=lambda: [(i, pa, pb, True, po, pk, 1, 2) for i in range(len(PROGRAMS)) for pa in (False, True) for pb in (False, True) for po in (False, True) for pk in (False, True)],
+    grid=lambda: [(i, pa, pb, True, po, pk, va, vb) for i in range(len(PROGRAMS)) for pa in (False, True) for pb in (False, True) for po in (False, True) for pk in (False, True) for va, vb in ((1, 2), (4, 3), (3, 4))],
 )
 def d_refine(i: int, pa: bool, pb: bool, pl: bool, po: bool, pk: bool, va: int, vb: int) -> bool:
     data = _data(pa, pb, pl, po, pk, va, vb)
@@ -109,13 +112,13 @@ def d_refine(i: int, pa: bool, pb: bool, pl: bool, po: bool, pk: bool, va: int, 
 
 
 @cond(
-    pre=["0 <= va <= 3", "0 <= vb <= 3"],
+    pre=["0 <= va <= 4", "0 <= vb <= 4"],
     timeout=240,
     shard={"i": list(range(len(PROGRAMS)))},
     covers="with every referenced variable and property present (possibly bound to nil), no undefined policy raises UndefinedError and all three policies print the same",
-    bounds="13 programs; values 0..2 or nil",
+    bounds="15 programs; values 0..2, nil or false",
     stubs=(STUB_STRICT_INIT,),
-    grid=lambda: [(i, va, vb) for i in range(len(PROGRAMS)) for va in range(4) for vb in (0, 3)],
+    grid=lambda: [(i, va, vb) for i in range(len(PROGRAMS)) for va in range(5) for vb in (0, 3, 4)],
 )
 def d_all_present(i: int, va: int, vb: int) -> bool:
     outs = [_run(p, i, _data(True, True, True, True, True, va, vb)) for p in range(3)]
